@@ -14,26 +14,26 @@ From Sessions Require Proofs.RotateLaws2 Proofs.RotateLaws3 Proofs.StartLaws4 Pr
 From Coq Require Import Lia.
 
 (* what the ghost log of a run is *)
-Lemma cstep_acts locked kk reqs cs lab cs' : cstep locked kk reqs cs lab = Some cs' ->
+Lemma cstep_acts locked reqs cs lab cs' : cstep locked reqs cs lab = Some cs' ->
   c_acts cs' = act_of lab ++ c_acts cs /\ (forall g, lab = CRest g -> nth_error reqs g <> None).
 Proof.
   intro Hs. destruct lab as [l|g|g|d].
-  - destruct (cstep_CL _ _ _ _ _ _ Hs) as (st' & _ & -> & _). split; [reflexivity|discriminate].
-  - destruct (cstep_CLook _ _ _ _ _ _ Hs) as (r & s1 & f & c & b & _ & _ & _ & _ & ->). split; [reflexivity|discriminate].
-  - destruct (cstep_CRest _ _ _ _ _ _ Hs) as (s0 & jar & f & c & b & r & w' & o & _ & Hr & _ & ->).
+  - destruct (cstep_CL _ _ _ _ _ Hs) as (st' & _ & -> & _). split; [reflexivity|discriminate].
+  - destruct (cstep_CLook _ 0 _ _ _ _ Hs) as (r & s1 & f & c & b & _ & _ & _ & _ & ->). split; [reflexivity|discriminate].
+  - destruct (cstep_CRest _ _ _ _ _ Hs) as (s0 & jar & f & c & b & r & w' & o & _ & Hr & _ & ->).
     split; [reflexivity|]. intros g' E. injection E as <-. congruence.
-  - destruct (cstep_CTick _ _ _ _ _ _ Hs) as (_ & ->). split; [reflexivity|discriminate].
+  - destruct (cstep_CTick _ _ _ _ _ Hs) as (_ & ->). split; [reflexivity|discriminate].
 Qed.
 
-Lemma crun_acts locked kk reqs : forall ls cs cs', crun locked kk reqs cs ls = Some cs' ->
+Lemma crun_acts locked reqs : forall ls cs cs', crun locked reqs cs ls = Some cs' ->
   c_acts cs' = rev (acts_of ls) ++ c_acts cs /\
   ((forall g, In g (goroutines (c_acts cs)) -> nth_error reqs g <> None) ->
    forall g, In g (goroutines (c_acts cs')) -> nth_error reqs g <> None).
 Proof.
   induction ls as [|l ls IH]; intros cs cs' Hr; cbn [crun] in Hr.
   - injection Hr as <-. split; [reflexivity | auto].
-  - destruct (cstep locked kk reqs cs l) as [cs1|] eqn:E; [|discriminate].
-    destruct (cstep_acts _ _ _ _ _ _ E) as [A1 A2]. destruct (IH _ _ Hr) as [B1 B2]. split.
+  - destruct (cstep locked reqs cs l) as [cs1|] eqn:E; [|discriminate].
+    destruct (cstep_acts _ _ _ _ _ E) as [A1 A2]. destruct (IH _ _ Hr) as [B1 B2]. split.
     + rewrite B1, A1. unfold acts_of. cbn [flat_map]. rewrite rev_app_distr, <- app_assoc.
       f_equal. destruct l; reflexivity.
     + intro H0. apply B2. intros g Hg. rewrite A1 in Hg. unfold goroutines in Hg. rewrite flat_map_app in Hg.
@@ -149,7 +149,7 @@ Section OneNewID.
 
   Theorem one_new_id cs0 ls cs :
     CI0 kk reqs w cs0 ->
-    crun true kk reqs cs0 ls = Some cs -> cadm_run true kk reqs cs0 ls ->
+    crun true reqs cs0 ls = Some cs -> cadm_run true reqs cs0 ls ->
     let acts := c_acts cs in
     request_first acts -> Forall tick_nonneg acts ->
     (ticks acts < c_grace c)%Z ->
@@ -170,7 +170,7 @@ Section OneNewID.
   Proof.
     intros H0 Hrun Hadm acts Hrf Hnn Hg He Hb.
     pose proof (ci_run kk reqs w ls cs0 cs (ci0_ci _ _ _ _ H0) Hrun Hadm) as (HI & HP & W1 & W2 & W3 & W4).
-    destruct (crun_acts _ _ _ _ _ _ Hrun) as [_ Hrng].
+    destruct (crun_acts _ _ _ _ _ Hrun) as [_ Hrng].
     assert (Hrng' : forall g, In g (goroutines acts) -> nth_error reqs g <> None).
     { apply Hrng. destruct H0 as (_ & _ & _ & Ha0 & _). rewrite Ha0. intros g []. }
     assert (Hcase : acts = [] \/ acts <> []) by (destruct acts; [left; reflexivity | right; discriminate]).
